@@ -190,6 +190,15 @@ func c17ReadPath(p *core.Program, r *core.Report) {
 				for _, oc := range opens {
 					conds := dominatingConds(fi, oc, norm)
 					name := pn.Name
+					// the same guards established atom by atom, and through a predicate helper of the
+					// package (isPlainLogName(file)): what every path of the helper that answers true
+					// has found out about its argument
+					for _, a := range dominatingAtoms(fi, oc) {
+						conds = append(conds, condKey(info, norm, a.E, a.V))
+						if call, ok := ast.Unparen(a.E).(*ast.CallExpr); ok && a.V {
+							conds = append(conds, factsWhenTrue(p, fi, call, norm)...)
+						}
+					}
 					baseOK := false
 					dots, seps := false, false
 					for _, c := range conds {
@@ -1545,4 +1554,82 @@ func c17NoFormatData(p *core.Program, r *core.Report) {
 			fileProbs(r, "C17.append", core.FuncName(fi.Obj)+" message as data", p.Pos(fi.Decl.Pos()), probs, "formats are constants or travel with their arguments")
 		}
 	}
+}
+
+// factsWhenTrue: for a call of a boolean helper of the same package, the atomic conditions (in the
+// caller's spelling, canonical form) that hold on every path of the helper that returns true.
+func factsWhenTrue(p *core.Program, fi *core.FuncInfo, call *ast.CallExpr, norm func(ast.Expr) string) []string {
+	in := newInliner(p, fi, nil)
+	body := in.Body(call)
+	if body == nil {
+		return nil
+	}
+	info := fi.Pkg.TypesInfo
+	ps, over := paths.Enumerate(body, paths.Config{Info: info,
+		Cond: func(c ast.Expr, v bool) *paths.Event {
+			return &paths.Event{Kind: "COND", Arg: condKey(info, norm, c, v), Pos: c.Pos()}
+		}})
+	if over {
+		return nil
+	}
+	var common map[string]bool
+	for _, pa := range ps {
+		if len(pa) == 0 || pa[len(pa)-1].Kind != "RET" {
+			return nil
+		}
+		rs, _ := pa[len(pa)-1].Node.(*ast.ReturnStmt)
+		if rs == nil || len(rs.Results) != 1 {
+			return nil
+		}
+		facts := map[string]bool{}
+		for _, e := range pa {
+			if e.Kind == "COND" {
+				facts[e.Arg] = true
+			}
+		}
+		ret := ast.Unparen(rs.Results[0])
+		if tv, ok := info.Types[ret]; ok && tv.Value != nil && tv.Value.Kind() == constant.Bool {
+			if !constant.BoolVal(tv.Value) {
+				continue // a path that answers false
+			}
+		} else {
+			// return A && B && C: true means every conjunct is true
+			var split func(e ast.Expr) bool
+			split = func(e ast.Expr) bool {
+				e = ast.Unparen(e)
+				if be, ok := e.(*ast.BinaryExpr); ok {
+					if be.Op == token.LAND {
+						return split(be.X) && split(be.Y)
+					}
+					if be.Op == token.LOR {
+						return false
+					}
+				}
+				if u, ok := e.(*ast.UnaryExpr); ok && u.Op == token.NOT {
+					facts[condKey(info, norm, u.X, false)] = true
+					return true
+				}
+				facts[condKey(info, norm, e, true)] = true
+				return true
+			}
+			if !split(ret) {
+				// a disjunction says nothing definite: keep only what the path itself established
+			}
+		}
+		if common == nil {
+			common = facts
+		} else {
+			for k := range common {
+				if !facts[k] {
+					delete(common, k)
+				}
+			}
+		}
+	}
+	var out []string
+	for k := range common {
+		out = append(out, k)
+	}
+	sort.Strings(out)
+	return out
 }
